@@ -15,6 +15,9 @@
 // and bytes offered) and appends the operation to a ghost history.
 use vstd::prelude::*;
 
+// std::task::ready!, for the stand-in Poll (so that a body using it is still readable)
+macro_rules! ready { ($e:expr $(,)?) => { match $e { Poll::Ready(t) => t, Poll::Pending => { return Poll::Pending; } } }; }
+
 verus! {
 
 #[verifier::external_body]
@@ -58,7 +61,7 @@ impl QuicSendStream {
 //@ subst `mut self: Pin<&mut Self>` => `&mut self`
 //@ subst `Context<'_>` => `Context`
 //@ resub `Poll<(std::io::Result<usize>|Result<usize, std::io::Error>)>` => `Poll<Result<usize, IoError>>`
-//@ subst `tokio::io::AsyncWrite::poll_write(Pin::new(&mut self.0)` => `QuinnSendStream::poll_write(&mut self.0`
+//@ resub `tokio::io::AsyncWrite::(poll_\w+)\(Pin::new\(&mut self\.0\)` => `QuinnSendStream::\1(&mut self.0`
 //@ subst `fn poll_write(` => `fn proto_poll_write(`
 //@ ensures
 //@ | r == write_outcome(old(self).0.id, old(self).0.ops@.len(), buf@),
@@ -68,7 +71,7 @@ impl QuicSendStream {
 //@ subst `mut self: Pin<&mut Self>` => `&mut self`
 //@ subst `Context<'_>` => `Context`
 //@ resub `Poll<(std::io::Result<usize>|Result<usize, std::io::Error>)>` => `Poll<Result<usize, IoError>>`
-//@ subst `tokio::io::AsyncWrite::poll_write(Pin::new(&mut self.0)` => `QuinnSendStream::poll_write(&mut self.0`
+//@ resub `tokio::io::AsyncWrite::(poll_\w+)\(Pin::new\(&mut self\.0\)` => `QuinnSendStream::\1(&mut self.0`
 //@ ensures
 //@ | r == write_outcome(old(self).0.id, old(self).0.ops@.len(), buf@),
 //@ | final(self).0.id == old(self).0.id, final(self).0.ops@ == old(self).0.ops@.push(Op::Write(buf@)),
@@ -77,7 +80,7 @@ impl QuicSendStream {
 //@ subst `mut self: Pin<&mut Self>` => `&mut self`
 //@ subst `Context<'_>` => `Context`
 //@ resub `Poll<(std::io::Result<\(\)>|Result<\(\), std::io::Error>)>` => `Poll<Result<(), IoError>>`
-//@ subst `tokio::io::AsyncWrite::poll_flush(Pin::new(&mut self.0)` => `QuinnSendStream::poll_flush(&mut self.0`
+//@ resub `tokio::io::AsyncWrite::(poll_\w+)\(Pin::new\(&mut self\.0\)` => `QuinnSendStream::\1(&mut self.0`
 //@ ensures
 //@ | r == flush_outcome(old(self).0.id, old(self).0.ops@.len()),
 //@ | final(self).0.id == old(self).0.id, final(self).0.ops@ == old(self).0.ops@.push(Op::Flush),
@@ -86,7 +89,7 @@ impl QuicSendStream {
 //@ subst `mut self: Pin<&mut Self>` => `&mut self`
 //@ subst `Context<'_>` => `Context`
 //@ resub `Poll<(std::io::Result<\(\)>|Result<\(\), std::io::Error>)>` => `Poll<Result<(), IoError>>`
-//@ subst `tokio::io::AsyncWrite::poll_shutdown(Pin::new(&mut self.0)` => `QuinnSendStream::poll_shutdown(&mut self.0`
+//@ resub `tokio::io::AsyncWrite::(poll_\w+)\(Pin::new\(&mut self\.0\)` => `QuinnSendStream::\1(&mut self.0`
 //@ ensures
 //@ | r == shutdown_outcome(old(self).0.id, old(self).0.ops@.len()),
 //@ | final(self).0.id == old(self).0.id, final(self).0.ops@ == old(self).0.ops@.push(Op::Shutdown),
@@ -98,7 +101,7 @@ impl SendStream {
 //@ subst `mut self: Pin<&mut Self>` => `&mut self`
 //@ subst `Context<'_>` => `Context`
 //@ resub `Poll<(std::io::Result<usize>|Result<usize, std::io::Error>)>` => `Poll<Result<usize, IoError>>`
-//@ subst `tokio::io::AsyncWrite::poll_write(Pin::new(&mut self.0)` => `QuicSendStream::poll_write(&mut self.0`
+//@ resub `tokio::io::AsyncWrite::(poll_\w+)\(Pin::new\(&mut self\.0\)` => `QuicSendStream::\1(&mut self.0`
 //@ ensures
 //@ | r == write_outcome(old(self).0.0.id, old(self).0.0.ops@.len(), buf@),
 //@ | final(self).0.0.id == old(self).0.0.id, final(self).0.0.ops@ == old(self).0.0.ops@.push(Op::Write(buf@)),
@@ -107,7 +110,7 @@ impl SendStream {
 //@ subst `mut self: Pin<&mut Self>` => `&mut self`
 //@ subst `Context<'_>` => `Context`
 //@ resub `Poll<(std::io::Result<\(\)>|Result<\(\), std::io::Error>)>` => `Poll<Result<(), IoError>>`
-//@ subst `tokio::io::AsyncWrite::poll_flush(Pin::new(&mut self.0)` => `QuicSendStream::poll_flush(&mut self.0`
+//@ resub `tokio::io::AsyncWrite::(poll_\w+)\(Pin::new\(&mut self\.0\)` => `QuicSendStream::\1(&mut self.0`
 //@ ensures
 //@ | r == flush_outcome(old(self).0.0.id, old(self).0.0.ops@.len()),
 //@ | final(self).0.0.id == old(self).0.0.id, final(self).0.0.ops@ == old(self).0.0.ops@.push(Op::Flush),
@@ -116,7 +119,7 @@ impl SendStream {
 //@ subst `mut self: Pin<&mut Self>` => `&mut self`
 //@ subst `Context<'_>` => `Context`
 //@ resub `Poll<(std::io::Result<\(\)>|Result<\(\), std::io::Error>)>` => `Poll<Result<(), IoError>>`
-//@ subst `tokio::io::AsyncWrite::poll_shutdown(Pin::new(&mut self.0)` => `QuicSendStream::poll_shutdown(&mut self.0`
+//@ resub `tokio::io::AsyncWrite::(poll_\w+)\(Pin::new\(&mut self\.0\)` => `QuicSendStream::\1(&mut self.0`
 //@ ensures
 //@ | r == shutdown_outcome(old(self).0.0.id, old(self).0.0.ops@.len()),
 //@ | final(self).0.0.id == old(self).0.0.id, final(self).0.0.ops@ == old(self).0.0.ops@.push(Op::Shutdown),
@@ -128,7 +131,7 @@ impl BiStream {
 //@ subst `mut self: Pin<&mut Self>` => `&mut self`
 //@ subst `Context<'_>` => `Context`
 //@ resub `Poll<(std::io::Result<usize>|Result<usize, std::io::Error>)>` => `Poll<Result<usize, IoError>>`
-//@ subst `tokio::io::AsyncWrite::poll_write(Pin::new(&mut self.0 .0)` => `SendStream::poll_write(&mut self.0 .0`
+//@ resub `tokio::io::AsyncWrite::(poll_\w+)\(Pin::new\(&mut self\.0 \.0\)` => `SendStream::\1(&mut self.0 .0`
 //@ ensures
 //@ | r == write_outcome(old(self).0.0.0.0.id, old(self).0.0.0.0.ops@.len(), buf@),
 //@ | final(self).0.0.0.0.id == old(self).0.0.0.0.id, final(self).0.0.0.0.ops@ == old(self).0.0.0.0.ops@.push(Op::Write(buf@)),
@@ -137,7 +140,7 @@ impl BiStream {
 //@ subst `mut self: Pin<&mut Self>` => `&mut self`
 //@ subst `Context<'_>` => `Context`
 //@ resub `Poll<(std::io::Result<\(\)>|Result<\(\), std::io::Error>)>` => `Poll<Result<(), IoError>>`
-//@ subst `tokio::io::AsyncWrite::poll_flush(Pin::new(&mut self.0 .0)` => `SendStream::poll_flush(&mut self.0 .0`
+//@ resub `tokio::io::AsyncWrite::(poll_\w+)\(Pin::new\(&mut self\.0 \.0\)` => `SendStream::\1(&mut self.0 .0`
 //@ ensures
 //@ | r == flush_outcome(old(self).0.0.0.0.id, old(self).0.0.0.0.ops@.len()),
 //@ | final(self).0.0.0.0.id == old(self).0.0.0.0.id, final(self).0.0.0.0.ops@ == old(self).0.0.0.0.ops@.push(Op::Flush),
@@ -146,7 +149,7 @@ impl BiStream {
 //@ subst `mut self: Pin<&mut Self>` => `&mut self`
 //@ subst `Context<'_>` => `Context`
 //@ resub `Poll<(std::io::Result<\(\)>|Result<\(\), std::io::Error>)>` => `Poll<Result<(), IoError>>`
-//@ subst `tokio::io::AsyncWrite::poll_shutdown(Pin::new(&mut self.0 .0)` => `SendStream::poll_shutdown(&mut self.0 .0`
+//@ resub `tokio::io::AsyncWrite::(poll_\w+)\(Pin::new\(&mut self\.0 \.0\)` => `SendStream::\1(&mut self.0 .0`
 //@ ensures
 //@ | r == shutdown_outcome(old(self).0.0.0.0.id, old(self).0.0.0.0.ops@.len()),
 //@ | final(self).0.0.0.0.id == old(self).0.0.0.0.id, final(self).0.0.0.0.ops@ == old(self).0.0.0.0.ops@.push(Op::Shutdown),
